@@ -336,7 +336,24 @@ fn cold_run(job: &Value) -> Option<String> {
     let k = COLD_SEQ.fetch_add(1, std::sync::atomic::Ordering::SeqCst);
     let path = std::env::temp_dir().join(format!("fqv-cold-{}-{}.json", std::process::id(), k));
     std::fs::write(&path, job.to_string()).ok()?;
-    let out = std::process::Command::new(exe).arg("__cold").arg(&path).output().ok();
+    let mut cmd = std::process::Command::new(exe);
+    cmd.arg("__cold").arg(&path);
+    // Building and rendering depend on the input / QR code and the options only - not on the process environment. The
+    // cold process therefore runs under an environment chosen from the job (locale, terminal, time zone, home
+    // variables; or a completely empty environment), while this process keeps its own.
+    let k = (hash_bytes(job.to_string().as_bytes()) % COLD_ENVS.len() as u64) as usize;
+    match COLD_ENVS[k] {
+        [("", "")] => {}
+        [("-", "")] => {
+            cmd.env_clear();
+        }
+        envs => {
+            for (key, val) in envs {
+                cmd.env(key, val);
+            }
+        }
+    }
+    let out = cmd.output().ok();
     let _ = std::fs::remove_file(&path);
     let out = out?;
     let text = String::from_utf8_lossy(&out.stdout);
@@ -357,6 +374,22 @@ fn cold_render_verdict(bc: &BuildCase, kind: &str, prog: &[SvgOp], warm_hash: u6
     Ok(true)
 }
 
+/// environments of the cold process: [("", "")] = inherited unchanged, [("-", "")] = empty
+const COLD_ENVS: [&[(&str, &str)]; 12] = [
+    &[("", "")],
+    &[("-", "")],
+    &[("LANG", "C"), ("LC_ALL", "C")],
+    &[("LANG", "en_US.UTF-8"), ("LC_ALL", "en_US.UTF-8")],
+    &[("LANG", "fr_FR.ISO-8859-1")],
+    &[("LANG", "ja_JP.UTF-8"), ("LC_ALL", "ja_JP.eucJP")],
+    &[("LANG", "en_US.UTF-8"), ("LC_CTYPE", "de_DE.ISO-8859-15@euro")],
+    &[("LANG", "tr_TR.ISO-8859-9"), ("LANGUAGE", "tr")],
+    &[("COLUMNS", "40"), ("LINES", "10"), ("TERM", "dumb"), ("NO_COLOR", "1")],
+    &[("COLUMNS", "300"), ("LINES", "90"), ("TERM", "xterm-256color"), ("COLORTERM", "truecolor"), ("CLICOLOR_FORCE", "1")],
+    &[("TZ", "Pacific/Kiritimati"), ("HOME", "/nonexistent"), ("USER", "nobody"), ("SOURCE_DATE_EPOCH", "0")],
+    &[("RUST_BACKTRACE", "full"), ("RUST_LOG", "trace"), ("RAYON_NUM_THREADS", "1"), ("RUST_MIN_STACK", "16777216")],
+];
+
 static COLD_SEQ: std::sync::atomic::AtomicU64 = std::sync::atomic::AtomicU64::new(0);
 
 /// Digest of the same build in a cold child process; None when no child can be run (inside a fuzz target)
@@ -368,7 +401,24 @@ fn cold_digest(bc: &BuildCase) -> Option<String> {
     let k = COLD_SEQ.fetch_add(1, std::sync::atomic::Ordering::SeqCst);
     let path = std::env::temp_dir().join(format!("fqv-cold-{}-{}.json", std::process::id(), k));
     std::fs::write(&path, bc.to_json().to_string()).ok()?;
-    let out = std::process::Command::new(exe).arg("__cold").arg(&path).output().ok();
+    let mut cmd = std::process::Command::new(exe);
+    cmd.arg("__cold").arg(&path);
+    // Building and rendering depend on the input / QR code and the options only - not on the process environment. The
+    // cold process therefore runs under an environment chosen from the job (locale, terminal, time zone, home
+    // variables; or a completely empty environment), while this process keeps its own.
+    let k = (hash_bytes(bc.to_json().to_string().as_bytes()) % COLD_ENVS.len() as u64) as usize;
+    match COLD_ENVS[k] {
+        [("", "")] => {}
+        [("-", "")] => {
+            cmd.env_clear();
+        }
+        envs => {
+            for (key, val) in envs {
+                cmd.env(key, val);
+            }
+        }
+    }
+    let out = cmd.output().ok();
     let _ = std::fs::remove_file(&path);
     let out = out?;
     let text = String::from_utf8_lossy(&out.stdout);
@@ -553,7 +603,7 @@ pub fn check_history(h: &History, obs: &mut Obs) -> Result<(), Fail> {
                     if let Some(lc) = &last_case {
                         let vals: Vec<bool> = q.data[..q.size * q.size].iter().map(|m| m.value()).collect();
                         let suspicious = super::c16::check_text(&t1, &vals, q.size, lc).is_err();
-                        if suspicious || (hash_bytes(&h.input) + renders) % 8 == 0 {
+                        if suspicious || (hash_bytes(&h.input) + renders) % 3 == 0 {
                             if cold_render_verdict(lc, "text", &[], hash_bytes(t1.as_bytes()), &format!("op {}", i))? {
                                 obs.label("cold_process_consulted:render");
                             }
